@@ -7,6 +7,9 @@ instantiated at an arbitrary ordered field `K` with an arbitrary floor function 
 import Mahotas.Proofs.C18Shift
 import Mahotas.Proofs.C18Filter
 import Mahotas.Proofs.C18Order3
+import Mahotas.Proofs.C18Tensor
+import Mahotas.Proofs.C18Init
+import Mahotas.Proofs.C18Order3b
 import Mathlib.Data.Rat.Floor
 
 open Mahotas Mahotas.C18
@@ -317,3 +320,268 @@ example : weights (fun z : ℚ => ⌊z⌋) 3 (5 / 2) = [1 / 48, 23 / 48, 23 / 48
     simp only [weights, startIdx, f1]
     norm_num [List.range_succ, splineCoeff, absV, q]
   · decide
+
+/-- **C18 (`zoom_shift` IS the evaluation of the tensor-product B-spline expansion).** For every spline order
+(1–5 are the ones `spline_coefficients` implements; the statement holds for any), every rank and shape, every
+border mode and every output position whose mapped coordinates `x_r = coord kk_r shift_r zoom_r` lie inside
+`[0, len_r − 1]` on every axis (`InRange`: no border rule is applied to the coordinate), the whole `zoom_shift`
+model (`pixel`: coordinate map, `mapCoord`, start knot, weights, knot folding, the flat accumulation
+`t += ((c·w₀)·w₁)…` in `fcoordinates` order) returns
+
+`Σ_{h ∈ {0..order}^rank} (∏_r w_{h_r}(x_r)) · c[k_0(h_0), …, k_{rank−1}(h_{rank−1})]`
+
+where, exactly as the code computes them, `w_h(x) = splineCoeff order |start(x) − x + h|` (`weights`),
+`start(x) = (order odd ? ⌊x⌋ : ⌊x + ½⌋) − order/2` (`startIdx`) and `k_r(h) = edgeFold len_r (start(x_r) + h)`
+(the mirror folding, the identity for knots inside the array: `edgeFold_inside`). `splineAxes` packs these per
+axis, `tensorTerms` enumerates all `(order+1)^rank` knot tuples (third conjunct: their number is the product of
+the per-axis knot counts). Second conjunct: the same value as the nested (axis-by-axis) sum `nestedSum`. With
+`C18_weights_partition` (the weights sum to one for orders 1–5) this is the value at `x` of the B-spline
+expansion of the coefficient array `c`. No property of `fl` is used. -/
+theorem C18_zoom_shift_is_tensor_spline {K : Type} [Field K] [LinearOrder K] [IsStrictOrderedRing K]
+    (fl : K → Int) (order : Nat) (m : Mode) (cval : K) (im : Img K)
+    (shifts zooms : List (Option K)) (p : List Int)
+    (hr : InRange im.shape (coordsOf im.shape p shifts zooms)) :
+    let axes := splineAxes fl order im.shape (coordsOf im.shape p shifts zooms)
+    pixel fl order m cval im shifts zooms p
+        = ((tensorTerms axes).map fun pw => pw.2.prod * im.getD pw.1 0).sum ∧
+    pixel fl order m cval im shifts zooms p = nestedSum (fun pos => im.getD pos 0) axes ∧
+    (tensorTerms axes).length = (axes.map fun e => (e.1.zip e.2).length).prod := by
+  intro axes
+  have e : pixel fl order m cval im shifts zooms p
+      = ((tensorTerms axes).map fun pw => pw.2.prod * im.getD pw.1 0).sum := by
+    unfold pixel
+    rw [go_inrange fl order m im.shape p shifts zooms hr]
+    simp only [Nat.cast_zero]
+    have := tensorSum_eq_sum (fun pos => im.getD pos (0 : K)) axes
+    simp only [Nat.cast_zero] at this
+    exact this
+  refine ⟨e, ?_, tensorTerms_length axes⟩
+  rw [e]
+  exact flat_eq_nested axes (fun pos => im.getD pos 0)
+
+/-- **C18 (order 1 at fractional coordinates is multilinear interpolation, any rank).** For every rank, shape,
+border mode and output position whose mapped coordinates lie inside `[0, len_r − 1]` on every axis, the
+`zoom_shift` model at order 1 returns the multilinear interpolation of the `2^rank` neighbouring samples
+(`multilinear`): along every axis `(1 − t_r)·(… at ⌊x_r⌋) + t_r·(… at ⌊x_r⌋ + 1)` with `t_r = x_r − ⌊x_r⌋`
+(the upper neighbour passes through the knot folding, which is the identity unless `x_r = len_r − 1`, where its
+weight `t_r` is 0). -/
+theorem C18_fractional_order1_is_linear_nd {K : Type} [Field K] [LinearOrder K] [IsStrictOrderedRing K]
+    {fl : K → Int} (h : IsFloor fl) (m : Mode) (cval : K) (im : Img K)
+    (shifts zooms : List (Option K)) (p : List Int)
+    (hr : InRange im.shape (coordsOf im.shape p shifts zooms)) :
+    pixel fl 1 m cval im shifts zooms p
+      = multilinear fl (fun pos => im.getD pos 0) im.shape (coordsOf im.shape p shifts zooms) := by
+  rw [(C18_zoom_shift_is_tensor_spline fl 1 m cval im shifts zooms p hr).2.1]
+  exact nested_order1 h im.shape _ _ hr
+
+/-- **C18 (coordinate map of `shift`).** In any rank: the model of `interpolate.shift` is `zoom_shift` onto the
+input's shape with the negated shift vector, and output index `kk_r` reads input coordinate `kk_r − shift_r` on
+every axis (`coordsOf` is the list of coordinates `pixel` works with, cf. `C18_zoom_shift_is_tensor_spline`). -/
+theorem C18_shift_coordinate_map {K : Type} [Field K] [LinearOrder K] [IsStrictOrderedRing K]
+    (fl : K → Int) (order : Nat) (m : Mode) (cval : K) (im : Img K) (sh : List K) (p : List Int)
+    (hp : ∀ kk ∈ p, 0 ≤ kk) (h1 : im.shape.length = p.length) (h2 : p.length = sh.length) :
+    shiftGlue fl order m cval im sh
+        = Img.tabulate im.shape
+            (pixel fl order m cval im (sh.map fun s => some (-s)) (sh.map fun _ => none)) ∧
+    coordsOf im.shape p (sh.map fun s => some (-s)) (sh.map fun _ => (none : Option K))
+      = List.zipWith (fun (kk : Int) (s : K) => (kk : K) - s) p sh :=
+  ⟨rfl, coordsOf_shift im.shape p sh hp h1 h2⟩
+
+/-- **C18 (coordinate map of `zoom`).** In any rank, for output axes of at least two samples: the model of
+`interpolate.zoom(out=…)` is `zoom_shift` onto the requested shape with the factors `(n_in − 1)/(n_out − 1)`,
+output index `kk_r` reads input coordinate `kk_r·(n_in,r − 1)/(n_out,r − 1)` on every axis, and this map sends
+corner to corner: `0 ↦ 0`, `n_out − 1 ↦ n_in − 1`. -/
+theorem C18_zoom_coordinate_map {K : Type} [Field K] [LinearOrder K] [IsStrictOrderedRing K]
+    (fl : K → Int) (order : Nat) (m : Mode) (cval : K) (im : Img K) (oshape : List Nat) (p : List Int)
+    (hp : ∀ kk ∈ p, 0 ≤ kk) (ho : ∀ n ∈ oshape, 2 ≤ n)
+    (h1 : im.shape.length = p.length) (h2 : p.length = oshape.length) :
+    zoomGlue fl order m cval im oshape
+        = Img.tabulate oshape
+            (pixel fl order m cval im (oshape.map fun _ => none)
+              ((im.shape.zip oshape).map fun io => some (zoomFactor io.1 io.2))) ∧
+    coordsOf im.shape p (oshape.map fun _ => (none : Option K))
+        ((im.shape.zip oshape).map fun io => some (zoomFactor io.1 io.2 : K))
+      = List.zipWith (fun (kk : Int) (io : Nat × Nat) => (kk : K) * ((io.1 : K) - 1) / ((io.2 : K) - 1))
+          p (im.shape.zip oshape) ∧
+    (∀ nin nout : Nat, 2 ≤ nout →
+      ((0 : Int) : K) * ((nin : K) - 1) / ((nout : K) - 1) = 0 ∧
+      (((nout : Int) - 1 : Int) : K) * ((nin : K) - 1) / ((nout : K) - 1) = (nin : K) - 1) := by
+  refine ⟨rfl, coordsOf_zoom im.shape oshape p hp ho h1 h2, ?_⟩
+  intro nin nout h
+  constructor
+  · simp
+  · have : ((nout : K) - 1) ≠ 0 := by
+      have : (1 : K) < (nout : K) := by exact_mod_cast h
+      linarith
+    push_cast
+    field_simp
+
+/-- **C18-T4 (what the two initialisations of the causal pass are).** `spline_filter1d` starts the causal
+recursion from `initTrunc` (lines longer than the cut `max = ⌈log 1e−15 / log|p|⌉`) or from `initFull` (shorter
+lines) — the polymorphic definitions `filterLine` runs. Over any field: (1) `initTrunc z mx s` is the geometric sum
+`Σ_{k<mx} z^k s[k]`; (2) `initFull z (z^(n−1)) n s` — the code's closed form
+`(s₀ + z^(n−1)s_{n−1} + Σ_{k=1}^{n−2} (z^k + z^(2n−2−k)) s_k) / (1 − z^(2n−2))`, accumulated as the loop does — is the
+**exact mirror-symmetric initial value** `MirrorInit`: the solution of `c0 = Σ_{k<P} z^k s̃[k] + z^P·c0`
+(`P = 2n − 2`, `s̃` the mirror extension), which is how `c0 = Σ_{k≥0} z^k s̃[k]` reads without infinite sums;
+(3) equivalently, `c0` is the value from which the causal recursion, run once around the mirrored period, returns
+to itself. -/
+theorem C18_initFull_is_mirror_init {K : Type} [Field K] (z : K) (hz : z ≠ 0) (n : Nat) (hn : 2 ≤ n)
+    (hP : 1 - z ^ (n - 1) * z ^ (n - 1) ≠ 0) (s : Nat → K) :
+    (∀ mx, 1 ≤ mx → initTrunc z mx s = geomSum z s mx) ∧
+    MirrorInit z n s (initFull z (z ^ (n - 1)) n s) ∧
+    (∀ c0, MirrorInit z n s c0 ↔ causal z c0 (mirrorExt n s) (2 * n - 2) = c0) :=
+  ⟨fun mx h => initTrunc_eq z mx h s, initFull_mirrorInit z hz n hn hP s,
+    fun c0 => mirrorInit_iff_steady z c0 n hn s⟩
+
+/-- **C18-T4 (the first sample, orders 2 and 3).** The gap of `C18_prefilter_inverts_partial`: if the causal pass
+starts from the exact mirror-symmetric initial value (`MirrorInit`, see `C18_initFull_is_mirror_init`: hypothesis
+stated explicitly; it is what the code computes on short lines), then for an exact root `z` of `z² + 6z + 1`
+(order 2) resp. `z² + 4z + 1` (order 3) the coefficients produced by `onePole` also reproduce sample 0, with the
+mirrored knot `c[−1] = c[1]`: `⅛c[1] + ¾c[0] + ⅛c[1] = f[0]` resp. `⅙c[1] + ⅔c[0] + ⅙c[1] = f[0]`. -/
+theorem C18_prefilter_first_sample {K : Type} [Field K] (z c0 : K) (n : Nat) (hn : 2 ≤ n)
+    (hz1 : z * z - 1 ≠ 0) (f : Nat → K) :
+    (z * z + 6 * z + 1 = 0 → (8 : K) ≠ 0 → MirrorInit z n (fun i => 8 * f i) c0 →
+      1 / 8 * onePole z c0 n (fun i => 8 * f i) 1 + 3 / 4 * onePole z c0 n (fun i => 8 * f i) 0
+        + 1 / 8 * onePole z c0 n (fun i => 8 * f i) 1 = f 0) ∧
+    (z * z + 4 * z + 1 = 0 → (6 : K) ≠ 0 → MirrorInit z n (fun i => 6 * f i) c0 →
+      1 / 6 * onePole z c0 n (fun i => 6 * f i) 1 + 2 / 3 * onePole z c0 n (fun i => 6 * f i) 0
+        + 1 / 6 * onePole z c0 n (fun i => 6 * f i) 1 = f 0) := by
+  constructor
+  · intro hz h8 hinit
+    have h2 : (2 : K) ≠ 0 := fun h => h8 (by linear_combination 4 * h)
+    have h4 : (4 : K) ≠ 0 := fun h => h8 (by linear_combination 2 * h)
+    have := onePole_first z 6 c0 hz hz1 n hn (fun i => 8 * f i) hinit
+    field_simp
+    linear_combination 4 * this
+  · intro hz h6 hinit
+    have h2 : (2 : K) ≠ 0 := fun h => h6 (by linear_combination 3 * h)
+    have h3 : (3 : K) ≠ 0 := fun h => h6 (by linear_combination 2 * h)
+    have := onePole_first z 4 c0 hz hz1 n hn (fun i => 6 * f i) hinit
+    field_simp
+    linear_combination 3 * this
+
+/-- **C18-T4 (`prefilter_inverts`, orders 2 and 3, short lines — every sample).** On the lines where the code uses
+its closed-form initialisation (`max ≥ len`: lines of at most 20 / 27 samples for orders 2 / 3 with the `1e−15` cut), in exact
+arithmetic with an exact pole (`z² + λz + 1 = 0`, `λ = 6` / `4`, `weight = 2 + λ`) and `pow(p, len−1) = z^(len−1)`:
+the coefficients `c = onePole z (initFull z (z^(n−1)) n (w·f)) n (w·f)` — exactly what `filterLine` computes —
+satisfy **all** `n` equations of "the B-spline expansion reproduces the samples" with mirror boundaries:
+`(c[k−1] + λ·c[k] + c[k+1]) / (2 + λ) = f[k]` for `1 ≤ k ≤ n−2`, `(2c[1] + λc[0]) / (2 + λ) = f[0]`,
+`(2c[n−2] + λc[n−1]) / (2 + λ) = f[n−1]`. (By `C18_integer_weights` these are the values `zoom_shift` returns at
+the integer coordinates.) What is not covered: the floating-point pole is only an approximate root; long lines use
+the truncated sum (`C18_prefilter_truncation_bound`). -/
+theorem C18_prefilter_inverts_short_lines {K : Type} [Field K] (z lam : K) (n : Nat) (hn : 2 ≤ n)
+    (hz : z * z + lam * z + 1 = 0) (hz1 : z * z - 1 ≠ 0) (hP : 1 - z ^ (n - 1) * z ^ (n - 1) ≠ 0)
+    (hw : (2 + lam : K) ≠ 0) (f : Nat → K) :
+    let s := fun i => (2 + lam) * f i
+    let c := onePole z (initFull z (z ^ (n - 1)) n s) n s
+    (1 - z) * (1 - 1 / z) = 2 + lam ∧
+    (2 * c 1 + lam * c 0) / (2 + lam) = f 0 ∧
+    (∀ k, 1 ≤ k → k + 2 ≤ n → (c (k - 1) + lam * c k + c (k + 1)) / (2 + lam) = f k) ∧
+    (2 * c (n - 2) + lam * c (n - 1)) / (2 + lam) = f (n - 1) := by
+  intro s c
+  have hz0 : z ≠ 0 := by
+    rintro rfl
+    simp at hz
+  have hinit := initFull_mirrorInit z hz0 n hn hP s
+  refine ⟨poleWeight_eq z lam hz, ?_, ?_, ?_⟩
+  · rw [div_eq_iff hw]
+    have := onePole_first z lam _ hz hz1 n hn s hinit
+    simp only [c, s] at this ⊢
+    linear_combination this
+  · intro k h1 h2
+    rw [div_eq_iff hw]
+    have := onePole_interior z lam (initFull z (z ^ (n - 1)) n s) hz n s k h1 h2
+    simp only [c, s] at this ⊢
+    linear_combination this
+  · rw [div_eq_iff hw]
+    have := onePole_last z lam (initFull z (z ^ (n - 1)) n s) hz hz1 n hn s
+    simp only [c, s] at this ⊢
+    linear_combination this
+
+/-- **C18-T4 (order 4: the first two samples).** The gap of `C18_prefilter_inverts_order4_partial`: if both
+causal passes start from their exact mirror-symmetric initial values (`MirrorInit`; on short lines the code's
+`initFull`, by `C18_initFull_is_mirror_init`), then with exact poles (`λ₁ + λ₂ = 76`, `λ₁λ₂ = 228`) samples 0 and 1
+are reproduced as well, with the mirrored knots `c[−1] = c[1]`, `c[−2] = c[2]`:
+`(c[2] + 76c[1] + 230c[0] + 76c[1] + c[2])/384 = f[0]`, `(c[1] + 76c[0] + 230c[1] + 76c[2] + c[3])/384 = f[1]`. -/
+theorem C18_prefilter_order4_first_samples {K : Type} [Field K] (z1 z2 l1 l2 c1 c2 : K) (n : Nat) (hn : 4 ≤ n)
+    (h1 : z1 * z1 + l1 * z1 + 1 = 0) (h2 : z2 * z2 + l2 * z2 + 1 = 0)
+    (hz1 : z1 * z1 - 1 ≠ 0) (hz2 : z2 * z2 - 1 ≠ 0) (hs : l1 + l2 = 76) (hp : l1 * l2 = 228)
+    (h384 : (384 : K) ≠ 0) (f : Nat → K)
+    (hi1 : MirrorInit z1 n (fun i => 384 * f i) c1)
+    (hi2 : MirrorInit z2 n (onePole z1 c1 n (fun i => 384 * f i)) c2) :
+    let c := onePole z2 c2 n (onePole z1 c1 n (fun i => 384 * f i))
+    (1 / 384 * c 2 + 19 / 96 * c 1 + 115 / 192 * c 0 + 19 / 96 * c 1 + 1 / 384 * c 2 = f 0) ∧
+    (1 / 384 * c 1 + 19 / 96 * c 0 + 115 / 192 * c 1 + 19 / 96 * c 2 + 1 / 384 * c 3 = f 1) := by
+  intro c
+  simp only [c]
+  have h96 : (96 : K) ≠ 0 := fun e => h384 (by linear_combination 4 * e)
+  have h192 : (192 : K) ≠ 0 := fun e => h384 (by linear_combination 2 * e)
+  obtain ⟨k0, k1⟩ := twoPole_first z1 z2 l1 l2 c1 c2 h1 h2 hz1 hz2 n hn (fun i => 384 * f i) hi1 hi2
+  simp only [hs, hp] at k0 k1
+  constructor
+  · field_simp
+    linear_combination 18432 * k0
+  · field_simp
+    linear_combination 18432 * k1
+
+/-- **C18-T4 (long lines: the truncated initial sum).** Over an ordered field, for `|z| < 1` and a line with
+`|s| ≤ M`: the value `initTrunc z mx s = Σ_{k<mx} z^k s[k]` from which the code starts the causal pass on lines
+longer than the cut (`mx ≤ n`) differs from the exact mirror-symmetric initial value `c0` (`MirrorInit`) by at most
+`|z|^mx · M / (1 − |z|)` — with the code's `mx = ⌈log 1e−15 / log|z|⌉`, `|z|^mx ≤ 1e−15`. -/
+theorem C18_prefilter_truncation_bound {K : Type} [Field K] [LinearOrder K] [IsStrictOrderedRing K]
+    (z : K) (hz : |z| < 1) (n : Nat) (hn : 2 ≤ n) (s : Nat → K) (M : K) (hs : ∀ k, k < n → |s k| ≤ M)
+    (c0 : K) (hinit : MirrorInit z n s c0) (mx : Nat) (h1 : 1 ≤ mx) (h2 : mx ≤ n) :
+    |c0 - initTrunc z mx s| ≤ |z| ^ mx * M / (1 - |z|) :=
+  mirrorInit_trunc_bound z hz n hn s M hs c0 hinit mx h1 h2
+
+/-- non-vacuity of `MirrorInit` / `initFull`: over ℚ, `z = 1/2`, the line `(1, 2, 3)` (mirror period `1 2 3 2`):
+the code's closed form gives `c0 = (1 + 2/2 + 3/4 + 2/8) / (1 − 1/16) = 16/5`, and it is the fixed point -/
+example : initFull (1 / 2 : ℚ) ((1 / 2) ^ (3 - 1)) 3 (fun k => ((k + 1 : Nat) : ℚ)) = 16 / 5 ∧
+    MirrorInit (1 / 2 : ℚ) 3 (fun k => ((k + 1 : Nat) : ℚ)) (16 / 5) := by
+  constructor
+  · norm_num [initFull, stepFull, List.range_succ]
+  · norm_num [MirrorInit, geomSum, mirrorExt]
+
+/-- **C18-T2/T4 (integer shifts at order 3 on a line, every source inside the array).** Closes the source-0 gap
+of `C18_integer_shift_order3_line_partial`: if the coefficient line holds what the one-pole prefilter produces from
+the samples `f` (`weight = 6`, exact pole `z² + 4z + 1 = 0`) **from the exact mirror-symmetric initial value**
+(`MirrorInit`; the code's `initFull` on lines of at most 27 samples, `C18_initFull_is_mirror_init`), then `shift` by an
+integer `d` at order 3 — the whole `zoom_shift` model, with the knot before the start folded to `c[1]` and the knot
+beyond the end folded to `c[n−2]` — returns exactly `f[kk − d]` at every output index whose source `kk − d` lies in
+`[0, n−1]`. **Still missing**: sources outside the array (border rule first, `mapCoord_int`), more than one
+dimension, orders 2 and 4, approximate poles. -/
+theorem C18_integer_shift_order3_line {K : Type} [Field K] [LinearOrder K] [IsStrictOrderedRing K]
+    {fl : K → Int} (h : IsFloor fl) (m : Mode) (cval z c0 : K) (hz : z * z + 4 * z + 1 = 0)
+    (hz1 : z * z - 1 ≠ 0) (h6 : (6 : K) ≠ 0) (n : Nat) (hn : 2 ≤ n) (f : Nat → K) (im : Img K)
+    (hshape : im.shape = [n]) (hinit : MirrorInit z n (fun i => 6 * f i) c0)
+    (hdata : ∀ k, k < n → im.getD [((k : Nat) : Int)] 0 = onePole z c0 n (fun i => 6 * f i) k)
+    (kk d : Int) (i : Nat) (hkk : 0 ≤ kk) (hi : kk - d = (i : Int)) (h2 : i + 1 ≤ n) :
+    pixel fl 3 m cval im [some (-(d : K))] [none] [kk] = f i := by
+  rcases Nat.eq_zero_or_pos i with rfl | hpos
+  · rw [pixel3_line0 h m cval im n hn hshape kk d hkk (by simpa using hi)]
+    have d0 := hdata 0 (by omega)
+    have d1 := hdata 1 (by omega)
+    simp only [Nat.cast_zero, Nat.cast_one] at d0 d1
+    rw [d0, d1]
+    exact (C18_prefilter_first_sample z c0 n hn hz1 f).2 hz h6 hinit
+  · exact C18_integer_shift_order3_line_partial h m cval z c0 hz hz1 h6 n f im hshape hdata kk d i hkk hi hpos h2
+
+/-- a 2×2 image over ℚ for the non-vacuity example below -/
+def c18Im22 : Img ℚ := { shape := [2, 2], data := #[0, 1, 2, 3] }
+
+/-- non-vacuity of the in-range hypothesis and of `C18_fractional_order1_is_linear_nd`: a shift by `(½, ½)` of
+the 2×2 image `[[0,1],[2,3]]` reads, at output `(1,1)`, the in-range coordinate `(½, ½)`, and the multilinear
+interpolation there is the mean `3/2` of the four samples -/
+example : InRange c18Im22.shape
+      (coordsOf c18Im22.shape [1, 1] [some (-(1 / 2 : ℚ)), some (-(1 / 2))] [none, none]) ∧
+    multilinear (fun z : ℚ => ⌊z⌋) (fun pos => c18Im22.getD pos 0) c18Im22.shape
+      (coordsOf c18Im22.shape [1, 1] [some (-(1 / 2 : ℚ)), some (-(1 / 2))] [none, none]) = 3 / 2 := by
+  have f1 : ⌊(1 / 2 : ℚ)⌋ = 0 := by rw [Int.floor_eq_iff]; norm_num
+  constructor
+  · simp [InRange, coordsOf, coord, c18Im22]; norm_num
+  · have c : coordsOf c18Im22.shape [1, 1] [some (-(1 / 2 : ℚ)), some (-(1 / 2))] [none, none]
+        = [1 / 2, 1 / 2] := by
+      simp [coordsOf, coord, c18Im22]; norm_num
+    rw [c]
+    simp only [multilinear, c18Im22, f1]
+    norm_num [edgeFold, fixOffset, Img.getD, inside, ravelI, shapeSize]
